@@ -1152,9 +1152,11 @@ def step(ctx, level, flavour, init, hist, m, op, rows_hist, base=None):
         if got_exc is not None:
             extra = ""
             if op[0] in ("reparse", "serialize"):
-                extra = "|row_count_changed" if len(rows_hist) > 1 else "|row_count_constant"
+                # history class: has this category ever held columns of more than one length?
+                extra = "|column_length_varied" if len(rows_hist) > 1 else "|column_length_constant"
                 if got_exc == "SerializationError":
                     opname = "write"  # the write half of the step failed (same call for both operations)
+                    kcls = "rectangular_table"
             ctx.violation("container|%s|%s|raises_%s|%s%s" % (subj, opname, got_exc, kcls, extra),
                           "legal mapping operation raised %s" % got_exc, case, expected="success", observed=got_exc)
             ok = False
@@ -1187,10 +1189,10 @@ def step(ctx, level, flavour, init, hist, m, op, rows_hist, base=None):
 
 
 def rows_of(m, level):
-    if level != "category" or not m:
-        return None
-    rs = {col_rows(c) for c in m.values()}
-    return next(iter(rs)) if len(rs) == 1 else None
+    """Column lengths present in a category state (history class for write failures)."""
+    if level != "category":
+        return frozenset()
+    return frozenset(col_rows(c) for c in m.values())
 
 
 def run_history(shard, ctx):
@@ -1216,8 +1218,7 @@ def run_history(shard, ctx):
     if bad:
         ctx.count("inconsistent_states_not_expanded")
         return  # a state whose views already disagree with the model is reported once and not expanded
-    r0 = rows_of(m0, level)
-    frontier = [([], m0, frozenset([r0]) if r0 is not None else frozenset())]
+    frontier = [([], m0, rows_of(m0, level))]
     for d in range(1, depth + 1):
         nxt = []
         for hist, m, rows_hist in frontier:
@@ -1255,8 +1256,7 @@ def run_history(shard, ctx):
                         ctx.sample({"kind": "history", "flavour": flavour, "level": level, "init": init, "hist": h2,
                                     "reached": model_key(strip_origin(m2))})
                     if d < depth:
-                        r2 = rows_of(m2, level)
-                        nxt.append((h2, m2, rows_hist | {r2} if r2 is not None else rows_hist))
+                        nxt.append((h2, m2, rows_hist | rows_of(m2, level)))
         frontier = nxt
 
 
@@ -1271,7 +1271,7 @@ def shards(tier, seed):
     for flavour in FLAVOURS:
         for level in LEVELS:
             for init in INITS:
-                nres = 1 if q else 4
+                nres = 1  # one shard per (flavour, level, init): state deduplication is per shard
                 for r in range(nres):
                     out.append({"kind": "history", "flavour": flavour, "level": level, "init": init, "depth": depth,
                                 "res": r, "nres": nres})
@@ -1377,15 +1377,12 @@ def replay(case, ctx):
                 ctx.violation("container|%s.%s|state|%s|%s" % (flavour, level, bad[0][0], keys_class(m)),
                               "initial container disagrees with the dict model", case, bad[0][1], bad[0][2])
             return
-        r0 = rows_of(m, level)
-        rows_hist = frozenset([r0]) if r0 is not None else frozenset()
+        rows_hist = rows_of(m, level)
         for i, op in enumerate(hist):
             out = step(ctx, level, flavour, init, hist[:i], m, op, rows_hist)
             if out is None:
                 return
             m = out[0]
-            r2 = rows_of(m, level)
-            if r2 is not None:
-                rows_hist = rows_hist | {r2}
+            rows_hist = rows_hist | rows_of(m, level)
     else:
         raise ValueError(case)
